@@ -1159,6 +1159,18 @@ class SyncInterpreter(BaseInterpreter[TContext, TEvent]):
             if explicit_id
             else f"{self.id}:{key}:{uuid.uuid4()}"
         )
+        # ♻️ Spawning under an id that is still in use supersedes that actor.
+        #    Overwriting the registry entry alone orphaned it: it kept running
+        #    but could no longer be addressed, stopped by `stopChild`, or
+        #    reached by the parent's own `stop()`.
+        previous = self._actors.pop(actor_id, None)
+        if previous is not None:
+            self._actor_sources.pop(actor_id, None)
+            registry = self._system_registry()
+            for system_id, candidate in list(registry.items()):
+                if candidate is previous:
+                    del registry[system_id]
+            previous.stop()
         child = SyncInterpreter(actor_machine)
         child.parent = self
         child.id = actor_id
